@@ -302,6 +302,29 @@ def rule_V(ck, lib):
                 ck.judge(x.value == ("ctor", ERR, (("ctor", E + "DataTypeError", ()),)) and v != want, "C03-V", "ref:%s:other#%d" % (t, i), "other kinds -> DataTypeError",
                          "TryInto<%s> answers %s for %s" % (t, show_term(x.value), v or "other kinds"))
         ck.judge(got == {want}, "C03-V", "ref:%s:accepts" % t, "%s accepts only %s" % (t, want), "TryInto<%s> accepts %s" % (t, sorted(got)))
+    # any further target type (a conversion added later): one kind of data accepted, delivered as the literal's own text or
+    # bytes - bare or wrapped in a constructor -, everything else a data type error; nothing computed from it
+    known = set(INTS) | {"f32", "f64", "bool", "&str", "&[u8]"}
+    for b in lib.facts["bodies"]:
+        m = re.match(r"<&(?:'\w+ )?microscpi::value::Value<.*> as core::convert::TryInto<(.*)>>$", b.get("trait_ref", ""))
+        if not (b.get("trait") == "core::convert::TryInto" and m) or strip_lt(m.group(1)) in known:
+            continue
+        t = strip_lt(m.group(1))
+        ex, ps = conv_paths(ck, lib, b)
+        got = set()
+        for i, x in enumerate(ex):
+            v, neg = variant_of_self(x, ps)
+            if x.value[0] == "ctor" and x.value[1] == OK:
+                pl = x.value[2][0] if len(x.value[2]) == 1 else None
+                while pl is not None and pl[0] == "ctor" and len(pl[2]) == 1:
+                    pl = pl[2][0]
+                okp = v is not None and pl == ("payload", ("param", "self"), V + v, 0) and not x.calls()
+                got.add(v)
+                ck.judge(okp, "C03-V", "ref:%s:%s#%d" % (t, v, i), "%s delivered as the payload itself" % v, "TryInto<%s> delivers %s for %s" % (t, show_term(x.value), v), data=pathsum.show_exit(x)[:400])
+            else:
+                ck.judge(x.value == ("ctor", ERR, (("ctor", E + "DataTypeError", ()),)), "C03-V", "ref:%s:other#%d" % (t, i), "other kinds -> DataTypeError",
+                         "TryInto<%s> answers %s for %s" % (t, show_term(x.value), v or "other kinds"))
+        ck.judge(len(got) == 1 and None not in got, "C03-V", "ref:%s:accepts" % t, "%s accepts only %s" % (t, sorted(got)), "TryInto<%s> accepts %s" % (t, sorted(map(str, got))))
     # by-value impls delegate to the by-reference impl of the same target
     n = 0
     for b in lib.facts["bodies"]:
@@ -311,9 +334,26 @@ def rule_V(ck, lib):
             n += 1
             v = hir.strip(b["value"])
             ok = v.get("k") == "MethodCall" and v["name"] == "try_into" and hir.local_id(v["recv"]) is not None and (v.get("resolved") or "").startswith("<&microscpi::value::Value") \
-                and strip_lt((v.get("resolved") or "").split("TryInto<")[-1].split(">>")[0]) == strip_lt(m.group(1))
+                and strip_lt(generic_arg((v.get("resolved") or ""), "TryInto<")) == strip_lt(m.group(1))
             ck.judge(ok, "C03-V", "by-value:%s" % strip_lt(m.group(1)), "delegates to the by-reference impl", "by-value TryInto<%s> is %s" % (m.group(1), hir.show(v)[:120]))
     ck.floor("C03-V", "by-value conversion impls", n, 14)
+
+
+def generic_arg(text, opener):
+    """the text between `opener` (which ends in '<') and its matching '>'"""
+    i = text.rfind(opener)
+    if i < 0:
+        return ""
+    i += len(opener)
+    depth = 1
+    for j in range(i, len(text)):
+        if text[j] == "<":
+            depth += 1
+        elif text[j] == ">":
+            depth -= 1
+            if depth == 0:
+                return text[i:j]
+    return text[i:]
 
 
 def rule_G(ck, lib):
